@@ -514,7 +514,8 @@ class CustomGateMatrixFactory:
 
     def __call__(self, *gate_params):
         return self.matrix.subs(
-            {symbol: arg for symbol, arg in zip(self.params_ordering, gate_params)}
+            {symbol: arg for symbol, arg in zip(self.params_ordering, gate_params)},
+            simultaneous=True,
         )
 
     def __eq__(self, other):
